@@ -84,6 +84,8 @@ def gen_jobs(ctx, rng):
         vdtype = "float64" if vfloat else rng.choice(["int32", "float64", "float32"])
         present = sorted({v for row in zones for v in row if not isinstance(v, str)})
         nodata = rng.choice([None, None, 0, 2, 3])
+        zlayout = rng.choice(["C", "C", "F", "T", "S", "R"])
+        vlayout = rng.choice(["C", "C", "F", "T", "S", "R"])
         rowsC, colsC = compositions(H), compositions(W)
         allc = [(r, c) for r in rowsC for c in colsC]
 
@@ -111,7 +113,7 @@ def gen_jobs(ctx, rng):
                 zid = rng.sample(present, rng.randrange(1, len(present) + 1)) + ([42] if rng.random() < 0.3 else [])
                 rng.shuffle(zid)
             jobs.append({"kind": "stats", "zones": zones, "values": values, "nodata": nodata, "zone_ids": zid,
-                         "stats": st, "zdtype": zdtype, "vdtype": vdtype, "H": H, "W": W,
+                         "stats": st, "zdtype": zdtype, "vdtype": vdtype, "H": H, "W": W, "zlayout": zlayout, "vlayout": vlayout,
                          "chunkings": chunkings(5, True)})
         # crosstab 2-D
         cats = sorted({v for row in values for v in row if not isinstance(v, str) and v != nodata})
@@ -132,7 +134,7 @@ def gen_jobs(ctx, rng):
                 if rng.random() < 0.5:
                     cid = cid[::-1]
             jobs.append({"kind": "crosstab", "zones": zones, "values": values, "nodata": nodata, "zone_ids": zid,
-                         "cat_ids": cid, "agg": agg, "zdtype": zdtype,
+                         "cat_ids": cid, "agg": agg, "zdtype": zdtype, "zlayout": zlayout, "vlayout": vlayout,
                          "vdtype": vdtype, "H": H, "W": W, "chunkings": chunkings(3, True)})
         # crosstab 3-D (Dask supports agg='count' only)
         L = rng.choice([2, 3])
